@@ -83,8 +83,8 @@ type decision struct {
 }
 
 // Decisions splits a cycle's calls into committed eviction decisions: a run of Evicts naming one preemptor,
-// followed by the placements that belong to the same Statement.Commit - pods of the preemptor and victims of this
-// very decision that are re-placed. A placement of any other workload starts something else (e.g. a later
+// followed by the placements that belong to the same Statement.Commit - pods of the preemptor and pods of the
+// victims' workloads that are (re-)placed. A placement of any other workload starts something else (e.g. a later
 // decision that needs no victims because capacity is already releasing).
 func Decisions(calls []Call, workloadOf func(pod string) string) []decision {
 	var out []decision
@@ -95,13 +95,14 @@ func Decisions(calls []Call, workloadOf func(pod string) string) []decision {
 			continue
 		}
 		d := decision{preemptor: calls[i].Preemptor, action: calls[i].Action, from: i}
-		victims := map[string]bool{}
+		victimWorkloads := map[string]bool{}
 		j := i
 		for j < len(calls) && calls[j].Kind == "evict" && calls[j].Preemptor == d.preemptor && calls[j].Action == d.action {
-			victims[calls[j].Pod] = true
+			victimWorkloads[workloadOf(calls[j].Pod)] = true
 			j++
 		}
-		for j < len(calls) && calls[j].Kind != "evict" && (victims[calls[j].Pod] || workloadOf(calls[j].Pod) == d.preemptor) {
+		// the same commit re-allocates the victims' workloads (moved victims, pending siblings) and places the preemptor
+		for j < len(calls) && calls[j].Kind != "evict" && (victimWorkloads[workloadOf(calls[j].Pod)] || workloadOf(calls[j].Pod) == d.preemptor) {
 			j++
 		}
 		d.to = j
